@@ -114,8 +114,16 @@ Estimate<T> invariant ( const Stokes< Estimate<T> >& stokes )
 
   result.val -= bias;
 
-  // the variance is underestimated by Estimate<T>::operator * (x,x)
-  result.var *= 2;
+  /* first-order variance: the sum over the four Stokes parameters of
+     (d invariant / d S_i)^2 var(S_i) = 4 S_i^2 var(S_i).
+     Stokes::invariant() cannot supply it: Estimate<T>::operator * (x,x)
+     underestimates the variance of I^2 by a factor of two, and sqr_vect()
+     returns the squared polarization without any variance */
+  T var = 0;
+  for (unsigned i=0; i<4; i++)
+    var += 4 * stokes[i].get_value() * stokes[i].get_value()
+      * stokes[i].get_variance();
+  result.var = var;
 
   return result;
 }
